@@ -26,7 +26,13 @@ def two_sided_p(tabs, ndf):
         return 0.0
     if ndf is None:
         return float(special.erfc(tabs / math.sqrt(2.0)))
-    xval = ndf / (ndf + tabs * tabs)
+    tsq = tabs * tabs
+    if tsq / (ndf + tsq) < 1e-6:
+        # small |t|: ndf / (ndf + t^2) rounds to 1 and loses the tail; use
+        # the complementary form, accurate near p = 1
+        return 1.0 - float(special.betainc(0.5, ndf / 2.0,
+                                           tsq / (ndf + tsq)))
+    xval = ndf / (ndf + tsq)
     return float(special.betainc(ndf / 2.0, 0.5, xval))
 
 
